@@ -204,6 +204,22 @@ def load_findings(prop=None):
     return out
 
 
+def load_fixed(prop):
+    """`fixed:` entries: repaired defects.  They suppress nothing; their witnesses are re-executed as regressions."""
+    out = []
+    if not os.path.exists(FINDINGS_FILE):
+        return out
+    for line in open(FINDINGS_FILE, encoding="utf-8"):
+        if not line.startswith("fixed:"):
+            continue
+        kv = {}
+        for m in re.finditer(r"(\w+)=(\S+)", line):
+            kv.setdefault(m.group(1), m.group(2))
+        if kv.get("property") == prop and kv.get("witness"):
+            out.append(kv["witness"])
+    return out
+
+
 def _unq(s):
     # regexes in the file are percent-encoded for spaces only
     return s.replace("%20", " ")
@@ -261,6 +277,19 @@ class Run:
             still[f.id] = fails
             if fails:
                 print("KNOWN-FINDING: property=%s id=%s %s" % (self.prop, f.id, f.text))
+        # regression witnesses of repaired defects: reported like any other violation if they return
+        if replay_fn:
+            for wpath in load_fixed(self.prop):
+                try:
+                    wcase = json.load(open(os.path.join(ROOT, wpath), encoding="utf-8"))
+                    for v in replay_fn(wcase):
+                        v = dict(v, property=self.prop)
+                        v["detail"] = "REGRESSION of a repaired defect (%s): %s" % (wpath, v.get("detail", ""))
+                        if not any(f.matches(v) for f in self.findings):
+                            new.append(v)
+                    self.coverage["regression_witnesses_replayed"] = self.coverage.get("regression_witnesses_replayed", 0) + 1
+                except Exception as e:
+                    sys.stderr.write("[findings] regression witness %s could not be replayed: %s\n" % (wpath, e))
         code = 0
         seen = set()
         os.makedirs(REPLAY, exist_ok=True)
